@@ -374,7 +374,7 @@ impl PollSys {
             (None, None) => 0,
             _ => h64(&out),
         };
-        Step {
+        Step { strict: false,
             next: Some(PoState { sc, now: s.now, ob: nob }),
             obs,
             violations: v,
@@ -491,7 +491,7 @@ impl PollSys {
             nob.lsbp = None;
             nob.lsb_dropped = true;
         }
-        Step {
+        Step { strict: false,
             next: Some(PoState { sc, now: s.now, ob: nob }),
             obs: out.map_or(0, |t| h64(&("poll", t))),
             violations: v,
@@ -663,15 +663,15 @@ impl PollSys {
                         v.push(self.vx("representation-matters", "non-contributing", || format!("({:#04X},{},{}): {}", st, d1, d2, d)));
                     }
                 }
-                Step { next: None, obs: 0, violations: v }
+                Step { strict: false, next: None, obs: 0, violations: v }
             }
             PoAct::Poll => self.do_poll(s),
-            PoAct::Tick => Step {
+            PoAct::Tick => Step { strict: false,
                 next: Some(PoState { sc: s.sc, now: s.now + 1, ob: s.ob }),
                 obs: 0,
                 violations: Vec::new(),
             },
-            PoAct::Pause(i) => Step {
+            PoAct::Pause(i) => Step { strict: false,
                 next: Some(PoState { sc: s.sc, now: s.now + self.pauses[*i as usize], ob: s.ob }),
                 obs: 0,
                 violations: Vec::new(),
@@ -698,7 +698,7 @@ impl PollSys {
                     }
                 }
                 let ob = Obs { last6: s.ob.last6, last38: s.ob.last38, ..Obs::default() };
-                Step { next: Some(PoState { sc, now: s.now, ob }), obs: 0, violations: v }
+                Step { strict: false, next: Some(PoState { sc, now: s.now, ob }), obs: 0, violations: v }
             }
             PoAct::TouchAll => {
                 set_now_millis(s.now);
@@ -712,7 +712,7 @@ impl PollSys {
                         }
                     }
                 }
-                Step { next: Some(PoState { sc, now: s.now, ob: s.ob }), obs: 0, violations: v }
+                Step { strict: false, next: Some(PoState { sc, now: s.now, ob: s.ob }), obs: 0, violations: v }
             }
             PoAct::Reset => {
                 set_now_millis(s.now);
@@ -723,7 +723,7 @@ impl PollSys {
                     last38: s.ob.last38,
                     ..Obs::default()
                 };
-                Step {
+                Step { strict: false,
                     next: Some(PoState { sc, now: s.now, ob }),
                     obs: 0,
                     violations: Vec::new(),
@@ -743,7 +743,7 @@ impl PollSys {
                         v.push(self.vx("reset-behaves-like-new", "reset", || d));
                     }
                 }
-                Step { next: None, obs: 0, violations: v }
+                Step { strict: false, next: None, obs: 0, violations: v }
             }
         }
     }
